@@ -137,9 +137,17 @@ def c03(tier, seed):
                        "overruns and heavy communication jitter); each episode (free-running threads or a seeded gate schedule) gives one trace = "
                        "episode record + probe log, validated by RexTrace against RexLaw. non-trivial = accepted trace containing a tie at a step "
                        "start, a FIFO clamp, a multi-message group, a group larger than the window or a BUFFER hold-back")
-    rep.assumptions += ["times on the 1/64 s grid (DESIGN 3.1); continuous distributions and wall-clock episodes are not covered by this tier",
+    # order-only tier: continuous distributions (simulated clock) and wall-clock episodes under the gate's virtual time
+    ojobs = []
+    for i, cfg in enumerate(_graphs(seed + 350, 6 if quick else 48, tie_every=0, handmade=0, max_window=4)):
+        for mode in ("continuous", "wall"):
+            ojobs.append(dict(kind="pyfunc", module="harness.order", func="order_job", id=f"c03o{i}{mode[0]}", cfg=cfg, seed=seed + i, mode=mode,
+                              nsteps=6 if quick else 10, episodes=2 if quick else 4, policy=POLICIES[i % 5], timeout=600))
+    ostats = engine.run_order_campaign(rep, ojobs)
+    rep.assumptions += ["exact tier: times on the 1/64 s grid (DESIGN 3.1); continuous distributions (Normal, mixtures) and wall-clock episodes (gate, virtual "
+                        "time) are covered by the order-only tier RexOrder: order relations between recorded values, not the values themselves",
                         "tail of an episode: messages not consumed by a recorded step are not in the record and are not judged (the property speaks of messages up to the last consumed one)"]
-    return rep.finish(dict(feature_counts=fc))
+    return rep.finish(dict(feature_counts=fc, order_tier=ostats))
 
 
 def c04(tier, seed):
